@@ -717,7 +717,9 @@ func (sc *specCtx) call(e *ast.CallExpr) Value {
 		a, b := sc.eval(arg(0)), c.eval(arg(0))
 		return mBool(valueEq(a, b))
 	case "Is":
-		return mBool(App("Is", SBool, sc.eval(arg(0)).C[0], sc.eval(arg(1)).C[0]))
+		// errors.Is: a nil error matches only a nil target
+		e0, t0 := sc.eval(arg(0)).C[0], sc.eval(arg(1)).C[0]
+		return mBool(Ite(Eq(e0, Num(0)), Eq(t0, Num(0)), App("Is", SBool, e0, t0)))
 	case "bytes_eq":
 		// bytes_eq(a, b): same length and content (slices or strings)
 		a, b := sc.eval(arg(0)), sc.eval(arg(1))
